@@ -189,6 +189,7 @@ class Interp:
         self._eqconst = {}
         self.depth = 0
         self.sym_loop_limit = 3
+        self.loop_abort = False     # True: a symbolic loop that does not close ends the path ('loop-bound')
         self.inline_filter = None   # optional predicate(name) -> bool: interpret body?
         self.on_call = None         # optional hook(name, args, node)
         self.cur_tu = None
@@ -609,6 +610,8 @@ class Interp:
                     if is_sym(c):
                         nsym += 1
                         if nsym > self.sym_loop_limit:
+                            if self.loop_abort:
+                                raise PathAbort('loop-bound')
                             raise PEError('loop with symbolic bound not closed after %d iterations at %s'
                                           % (self.sym_loop_limit, astdb.loc_str(node)))
                     if not self.decide(c, cond):
@@ -634,6 +637,8 @@ class Interp:
                 if is_sym(c):
                     nsym += 1
                     if nsym > self.sym_loop_limit:
+                        if self.loop_abort:
+                            raise PathAbort('loop-bound')
                         raise PEError('while with symbolic condition not closed at %s' % astdb.loc_str(node))
                 if not self.decide(c, cond):
                     break
